@@ -549,7 +549,9 @@ def ensure_binary():
     from . import core
     if _BIN is None:
         os.makedirs(core.BUILD, exist_ok=True)
-        path = os.path.join(core.BUILD, "mltwist")
+        path = os.path.join(core.BUILD, "mltwist-%d" % os.getpid())
+        import atexit
+        atexit.register(lambda: os.path.exists(path) and os.remove(path))
         rc, out = core.sh(["go", "build", "-o", path, "./cmd/mltwist"], cwd=core.REPO, env=core.GOENV)
         if rc != 0:
             raise core.Broken("binary-build", "go build ./cmd/mltwist failed:\n" + out[-3000:])
